@@ -338,15 +338,35 @@ class World(object):
     def disconnect(self, a):
         return self.run({"op": "disconnect", "a": a}, lambda: self.p[a].disconnect())
 
+    # The objects handed to the library are the application's: the harness passes its own copy of a list / bytearray
+    # argument and overwrites it as soon as the call has returned (an application that reuses its buffers).  What the
+    # library does later must not depend on it.
     def publish(self, a, topic, msg, qos=0, retain=False):
-        return self.run({"op": "publish", "a": a, "topic": jval(topic), "payload": jpayload(msg), "qos": jval(qos), "retain": 1 if retain else 0},
-                        lambda: self.track(self.p[a].publish(topic, msg, qos=qos, retain=retain)))
+        own = bytearray(msg) if isinstance(msg, bytearray) else msg
+        def call():
+            h = self.track(self.p[a].publish(topic, own, qos=qos, retain=retain))
+            if isinstance(own, bytearray):
+                own[:] = b"overwritten-after-the-call"
+            return h
+        return self.run({"op": "publish", "a": a, "topic": jval(topic), "payload": jpayload(msg), "qos": jval(qos), "retain": 1 if retain else 0}, call)
 
     def subscribe(self, a, topics, qos=0):
-        return self.run({"op": "subscribe", "a": a, "arg": jtopics(topics), "qos": jval(qos)}, lambda: self.track(self.p[a].subscribe(topics, qos)))
+        own = list(topics) if isinstance(topics, list) else topics
+        def call():
+            h = self.track(self.p[a].subscribe(own, qos))
+            if isinstance(own, list):
+                own[:] = [("overwritten/after/the/call", 0)]
+            return h
+        return self.run({"op": "subscribe", "a": a, "arg": jtopics(topics), "qos": jval(qos)}, call)
 
     def unsubscribe(self, a, topics):
-        return self.run({"op": "unsubscribe", "a": a, "arg": jtopics(topics)}, lambda: self.track(self.p[a].unsubscribe(topics)))
+        own = list(topics) if isinstance(topics, list) else topics
+        def call():
+            h = self.track(self.p[a].unsubscribe(own))
+            if isinstance(own, list):
+                own[:] = ["overwritten/after/the/call"]
+            return h
+        return self.run({"op": "unsubscribe", "a": a, "arg": jtopics(topics)}, call)
 
     def recv(self, a, b):
         return self.run({"op": "recv", "a": a, "g": self.gen[a], "bytes": list(b)}, lambda: self.p[a].dataReceived(bytes(b)))
